@@ -356,7 +356,7 @@ func c06Reject(w *vx.W, m, trigger, desc string, write func(fr *Framer) error) b
 		w.Failf("C06/WritePing/rejected-valid-args", "WritePing after a refused %s: %v", m, err)
 		return false
 	}
-	return c06Verify(w, m+"+after-refusal", buf.Bytes(), []c06Want{c06PingWant(true, c06PingB)}, true, desc)
+	return c06Verify(w, "after-refusal", buf.Bytes(), []c06Want{c06PingWant(true, c06PingB)}, true, "PING written after the refused "+desc)
 }
 
 // Priority parameters: index -> (param, legal)
